@@ -48,7 +48,8 @@ PIPE_INVS = {
     "C06": ["P_C06"],
     "C07": ["P_C07_coverage", "P_C07_start", "P_C07_mono"],
     "C14": ["P_C14_feasible", "P_C14_optimal", "P_C14_decoded"],
-    "C16": ["P_C16_stages", "P_C16_start", "P_C16_transopt", "P_C16_cycles", "P_C16_final", "P_C16_output"],
+    "C16": ["P_C16_stages", "P_C16_start", "P_C16_transopt", "P_C16_cycles", "P_C16_final", "P_C16_output",
+            "P_C16_optfix"],
 }
 
 
@@ -706,6 +707,7 @@ class LsFixProp(PipeProp):
 
 
 REGISTRY["C08"] = LsFixProp()
+
 
 
 class LsCandProp(PipeProp):
